@@ -1,6 +1,8 @@
 import XcpProofs.FsDefs
 import XcpProofs.FsFrame
 import XcpProofs.TreeFrame
+import XcpProofs.AnyRunFrame
+import XcpProofs.ClashExample
 /-! # C03 — sources and bystander files are never modified, even by self-copies or kills
 
 Model slice: `validate` (identity-based same-file test per source), `execOp` (the same-file guard before
@@ -132,5 +134,89 @@ theorem whole_run_changes_only_the_targets (fs : Fs) (o : Opts) (texts : GiTexts
     (q : List Name) (hq : obsAt fs'.root q ≠ obsAt fs.root q) :
     ∃ e ∈ items, dest.names ++ [e.base] <+: q :=
   only_the_targets_change fs o texts dest items fuel hd hn hg hnt hrec hglob hpaths hne hwf hdest hdd hfuel hsrc hnd hun hcomp hlen fs' hrun q hq
+
+/-- WHATEVER THE RUN DOES — success, failure, a clash half-way, any interleaving, any worker count, either driver: for a
+target that is absent or made of directories and regular files (no compatibility with the source assumed), in EVERY reachable
+state of the concurrent model, failed or not, finished or not, every place that is not at or below the target is observed
+exactly as in the initial state: the destination's parent and ancestors, its other entries, everything outside -/
+theorem every_reachable_state_changes_only_the_target (fs : Fs) (c : Cfg) (hd : c.dereference = false) (hn : c.noClobber = false)
+    (src tb : RPath) (srcNode : Node) (fuel : Nat)
+    (hwf : FsEq fs fs) (hroot : fs.root.isDir = true)
+    (hsrc : PlainTarget fs src) (hsn : fs.root.getAt src.names = some srcNode)
+    (hcop : srcNode.Copyable fuel)
+    (htb : PlainTarget fs tb) (hne : tb.names ≠ [])
+    (hplain : ∀ d, fs.root.getAt tb.names = some d → d.plainTree = true)
+    (hpar : ∃ es, fs.root.getAt tb.names.dropLast = some (.dir es))
+    (hun1 : ¬ src.names <+: tb.names) (hun2 : ¬ tb.names <+: src.names)
+    (hlen : src.names.length + fuel < 200 ∧ tb.names.length + fuel < 200)
+    (ls : List L0.Label) (s : L0.St)
+    (hrun : L0.run c (L0.init fs (walkEntry fs c none src tb (fuel + 1) [] [])) ls = some s)
+    (q : List Name) (hq : ¬ tb.names <+: q) :
+    obsAt s.fs.root q = obsAt fs.root q :=
+  any_run_changes_only_the_target fs c hd hn src tb srcNode fuel hwf hroot hsrc hsn hcop htb hne hplain hpar hun1 hun2 hlen ls s hrun q hq
+
+/-- … in particular the SOURCE, at every depth, in every reachable state -/
+theorem every_reachable_state_keeps_the_source (fs : Fs) (c : Cfg) (hd : c.dereference = false) (hn : c.noClobber = false)
+    (src tb : RPath) (srcNode : Node) (fuel : Nat)
+    (hwf : FsEq fs fs) (hroot : fs.root.isDir = true)
+    (hsrc : PlainTarget fs src) (hsn : fs.root.getAt src.names = some srcNode)
+    (hcop : srcNode.Copyable fuel)
+    (htb : PlainTarget fs tb) (hne : tb.names ≠ [])
+    (hplain : ∀ d, fs.root.getAt tb.names = some d → d.plainTree = true)
+    (hpar : ∃ es, fs.root.getAt tb.names.dropLast = some (.dir es))
+    (hun1 : ¬ src.names <+: tb.names) (hun2 : ¬ tb.names <+: src.names)
+    (hlen : src.names.length + fuel < 200 ∧ tb.names.length + fuel < 200)
+    (ls : List L0.Label) (s : L0.St)
+    (hrun : L0.run c (L0.init fs (walkEntry fs c none src tb (fuel + 1) [] [])) ls = some s)
+    (rel : List Name) :
+    obsAt s.fs.root (src.names ++ rel) = obsAt fs.root (src.names ++ rel) :=
+  any_run_keeps_the_source fs c hd hn src tb srcNode fuel hwf hroot hsrc hsn hcop htb hne hplain hpar hun1 hun2 hlen ls s hrun rel
+
+/-- … and the sequential run, whatever its exit status -/
+theorem sequential_run_of_any_exit_changes_only_the_target (fs : Fs) (c : Cfg) (hd : c.dereference = false) (hn : c.noClobber = false)
+    (src tb : RPath) (srcNode : Node) (fuel : Nat)
+    (hwf : FsEq fs fs) (hroot : fs.root.isDir = true)
+    (hsrc : PlainTarget fs src) (hsn : fs.root.getAt src.names = some srcNode)
+    (hcop : srcNode.Copyable fuel)
+    (htb : PlainTarget fs tb) (hne : tb.names ≠ [])
+    (hplain : ∀ d, fs.root.getAt tb.names = some d → d.plainTree = true)
+    (hpar : ∃ es, fs.root.getAt tb.names.dropLast = some (.dir es))
+    (hun1 : ¬ src.names <+: tb.names) (hun2 : ¬ tb.names <+: src.names)
+    (hlen : src.names.length + fuel < 200 ∧ tb.names.length + fuel < 200)
+    (q : List Name) (hq : ¬ tb.names <+: q) :
+    obsAt (execOps fs c (walkEntry fs c none src tb (fuel + 1) [] [])).fs.root q = obsAt fs.root q :=
+  any_sequential_run_changes_only_the_target fs c hd hn src tb srcNode fuel hwf hroot hsrc hsn hcop htb hne hplain hpar hun1 hun2 hlen q hq
+
+/-- SEVERAL sources whose operations interleave: in every reachable state, every place not at or below one of the targets
+`DEST/basename(si)` is observed as before -/
+theorem every_reachable_state_of_several_sources_changes_only_the_targets (fs : Fs) (c : Cfg) (dest : RPath) (items : List CopySrc) (fuel : Nat)
+    (hd : c.dereference = false) (hn : c.noClobber = false)
+    (hwf : FsEq fs fs)
+    (hdd : ∃ es, fs.root.getAt dest.names = some (.dir es))
+    (hfuel : fuel < walkFuel)
+    (hsrc : ∀ e ∈ items, PlainTarget fs e.path ∧ e.path.fileName = some e.base ∧
+      fs.root.getAt e.path.names = some e.node ∧ e.node.Copyable fuel ∧ e.path.names.length + walkFuel < 256)
+    (hnd : (items.map (·.base)).Nodup)
+    (hun : ∀ e ∈ items, ∀ e' ∈ items,
+      ¬ e.path.names <+: dest.names ++ [e'.base] ∧ ¬ dest.names ++ [e'.base] <+: e.path.names)
+    (hplain : ∀ e ∈ items, ∀ d, fs.root.getAt (dest.names ++ [e.base]) = some d → d.plainTree = true)
+    (hlen : dest.names.length + 1 + walkFuel < 256)
+    (ls : List L0.Label) (s : L0.St)
+    (hrun : L0.run c (L0.init fs (multiOps fs c dest items)) ls = some s)
+    (q : List Name) (hq : ∀ e ∈ items, ¬ dest.names ++ [e.base] <+: q) :
+    obsAt s.fs.root q = obsAt fs.root q :=
+  any_multi_run_changes_only_the_targets fs c dest items fuel hd hn hwf hdd hfuel hsrc hnd hun hplain hlen ls s hrun q hq
+
+/-- the hypotheses are satisfiable by a FAILING run: on the clashing instance of `XcpProofs/ClashExample.lean` the theorem
+applies (its target is a plain tree) and the run fails -/
+example (q : List Name) (hq : ¬ ClashExample.tb.names <+: q) :
+    obsAt (execOps ClashExample.exFs {} (walkEntry ClashExample.exFs {} none ClashExample.src ClashExample.tb
+      (ClashExample.fuel + 1) [] [])).fs.root q = obsAt ClashExample.exFs.root q ∧
+    (execOps ClashExample.exFs {} (walkEntry ClashExample.exFs {} none ClashExample.src ClashExample.tb
+      (ClashExample.fuel + 1) [] [])).exit = .err := by
+  obtain ⟨hd, hn, hwf, hroot, hsrc, hsn, hcop, htb, hne, hdst, hpl, _, hpar, hun1, hun2, hlen⟩ :=
+    ClashExample.instance_meets_hypotheses
+  exact ⟨any_sequential_run_changes_only_the_target _ _ hd hn _ _ _ _ hwf hroot hsrc hsn hcop htb hne
+    (fun d h => by rw [hdst] at h; cases h; exact hpl) hpar hun1 hun2 hlen q hq, ClashExample.instance_fails⟩
 
 end Xcp.C03
